@@ -144,7 +144,9 @@ econf_err getDoubleValueNum(econf_file key_file, size_t num, double *result) {
     return ECONF_KEY_HAS_NULL_VALUE;
   errno = 0;
   *result = strtod(key_file.file_entry[num].value, &endptr);
-  if (endptr == key_file.file_entry[num].value || errno == ERANGE || (errno != 0 && *result == 0))
+  /* do not check errno: strtod() sets ERANGE for every subnormal result,
+     also for those written by econf_setDoubleValue() */
+  if (endptr == key_file.file_entry[num].value)
     return ECONF_VALUE_CONVERSION_ERROR;
   return ECONF_SUCCESS;
 }
